@@ -65,6 +65,10 @@ class Model:
         rel = Fraction(2) ** -9 if h.dtype == np.float16 else (Fraction(2) ** -21 if h.dtype == np.float32 else Fraction(0))
         for i in range(len(f)):
             for got, want, nm in ((f[i], self.freq[i], "frequency"), (e[i], self.err2[i], "errors2")):
+                if rel and math.isinf(float(got)) and abs(want) >= Fraction(float(np.finfo(h.dtype).max)) * (1 - rel):
+                    # a sum that left the range of the narrow float type the histogram was put into (float16: 65504):
+                    # overflow within the chosen type, as for the integer types - the history ends here
+                    return True
                 g = Fx(got)
                 ok = g == want if rel == 0 else abs(g - want) <= rel * abs(want)
                 require(ok and not math.isnan(float(got)), "value_" + nm, lambda: f"{what}: entry {i}: {got!r} want {float(want)!r} (dtype {h.dtype})")
@@ -286,6 +290,12 @@ def check_history(case, ctx: Ctx):
             require(h2.dtype == before_dtype, "merge_changed_dtype", f"{what}: {before_dtype} -> {h2.dtype}")
             h = h2
             shape = tuple(np.asarray(h.frequencies).shape)
+            if h.dtype.kind == "f" and h.dtype.itemsize < 8 and not (np.all(np.isfinite(h.frequencies)) and np.all(np.isfinite(h.errors2))) \
+                    and all(math.isfinite(float(x)) for x in hgen.flat(before["frequencies"]) + hgen.flat(before["errors2"])):
+                # sums of bins that left the range of the narrow float type the histogram was put into (float16: 65504):
+                # overflow within the chosen type, as for the integer types - the history ends here
+                ctx.label("narrow_float_overflow")
+                break
             m = Model(h) if m.exact else m
             if not m.exact:
                 m = Model(h)
@@ -359,7 +369,9 @@ def check_history(case, ctx: Ctx):
                 refused = True
                 ctx.label("refused_conversion")
         consistent(h, what)
-        m.compare(h, what)
+        if m.compare(h, what):
+            ctx.label("narrow_float_overflow")
+            break
     ctx.label("start_" + case["spec"]["dtype"], f"d{d}")
     ctx.nt(len(kinds) >= 2 or refused)
 
